@@ -78,7 +78,7 @@ var impWants = []impWant{
 	{dir: "formats/smtext", pkg: "smtext", funcs: []string{"extractSingleChar", "ReadNCBI"}, errZ: true, floatAs: "F"},
 	{dir: "formats/bed", pkg: "bed", funcs: []string{"BED.Write", "BED.MarshalText", "parseLine", "reader.read", "Reader"}, join: true, errZ: true},
 	{dir: "formats/newick", pkg: "newick", funcs: []string{"quoted", "nameFromText", "nameToText", "Node.traverse", "Node.newick", "Node.MarshalText", "Node.Write"}, floatAs: "F"},
-	{dir: "formats/newick", pkg: "newickrd", heap: "Node", heapRec: true, funcs: []string{"reader.nextToken", "quoted", "nameFromText", "reader.read"}, errZ: true, floatAs: "F"},
+	{dir: "formats/newick", pkg: "newickrd", heap: "Node", heapRec: true, funcs: []string{"reader.nextToken", "quoted", "nameFromText", "reader.read", "Reader"}, errZ: true, floatAs: "F"},
 }
 
 type impFn struct {
@@ -436,6 +436,9 @@ func (t *impTr) zero(ty types.Type) string {
 	}
 	if t.isOptPtr(ty) {
 		return "None"
+	}
+	if isBuilder(ty) {
+		return "(@nil N)"
 	}
 	if isError(ty) {
 		if t.errZ {
@@ -2262,6 +2265,9 @@ func (t *impTr) assign(s *ast.AssignStmt, pre *[]opener) {
 		if fn.oracle {
 			args = append(args, "o")
 		}
+		if fn.heap {
+			args = append(args, "h__")
+		}
 		if fn.stream {
 			args = append(args, "rd__")
 		}
@@ -2285,20 +2291,28 @@ func (t *impTr) assign(s *ast.AssignStmt, pre *[]opener) {
 		for range s.Lhs {
 			tmps = append(tmps, t.fresh())
 		}
+		resPat := "(" + strings.Join(tmps, ", ") + ")"
+		if fn.heap {
+			resPat = "(h__, " + resPat + ")"
+		}
 		if fn.stream {
 			if fn.recv {
 				rv := t.fresh()
-				*pre = append(*pre, opener{fmt.Sprintf("go_call (%s %s) (fun '(rd__, %s, (%s)) => ", fn.name, strings.Join(args, " "), rv, strings.Join(tmps, ", ")), ")"})
+				*pre = append(*pre, opener{fmt.Sprintf("go_call (%s %s) (fun '(rd__, %s, %s) => ", fn.name, strings.Join(args, " "), rv, resPat), ")"})
 				t.store(recvX, rv, pre)
 			} else {
-				*pre = append(*pre, opener{fmt.Sprintf("go_call (%s %s) (fun '(rd__, (%s)) => ", fn.name, strings.Join(args, " "), strings.Join(tmps, ", ")), ")"})
+				*pre = append(*pre, opener{fmt.Sprintf("go_call (%s %s) (fun '(rd__, %s) => ", fn.name, strings.Join(args, " "), resPat), ")"})
 			}
 			for i, l := range s.Lhs {
 				t.store(l, tmps[i], pre)
 			}
 			return
 		}
-		*pre = append(*pre, opener{fmt.Sprintf("go_call (%s %s) (fun '(%s) => ", fn.name, strings.Join(args, " "), strings.Join(tmps, ", ")), ")"})
+		if fn.heap {
+			*pre = append(*pre, opener{fmt.Sprintf("go_call (%s %s) (fun '%s => ", fn.name, strings.Join(args, " "), resPat), ")"})
+		} else {
+			*pre = append(*pre, opener{fmt.Sprintf("go_call (%s %s) (fun '(%s) => ", fn.name, strings.Join(args, " "), strings.Join(tmps, ", ")), ")"})
+		}
 		for i, l := range s.Lhs {
 			t.store(l, tmps[i], pre)
 		}
@@ -2884,12 +2898,17 @@ func (t *impTr) function(fd *ast.FuncDecl, coqName string) *impFn {
 						rt = "(list " + t.ty(ys.Params().At(0).Type()) + ")"
 					}
 					ret := "Ret out__"
+					outTy := rt
+					if t.fnHeap { // the items are addresses: the final heap comes with them
+						ret = "Ret (h__, out__)"
+						rt = "(" + t.heapTy() + " * " + rt + ")"
+					}
 					if t.stream {
-						ret = "Ret (rd__, out__)"
+						ret = "Ret (rd__, " + strings.TrimPrefix(ret, "Ret ") + ")"
 						rt = "(" + t.streamTy + " * " + rt + ")"
 					}
 					t.retWrap = func(string) string { return ret }
-					text = "let out__ : " + strings.TrimSuffix(strings.TrimPrefix(rt, "("+t.streamTy+" * "), ")") + " := [] in " + t.block(fl.Body.List, ret, nil)
+					text = "let out__ : " + outTy + " := [] in " + t.block(fl.Body.List, ret, nil)
 					if !t.stream {
 						text = "let out__ := [] in " + t.block(fl.Body.List, ret, nil)
 					}
